@@ -475,3 +475,118 @@ func c17MapOrder(x *X) {
 func init() {
 	register(&Scenario{Prop: "C17", Name: "c17/roundrobin-map-order", Quick: []Bound{{0, 1}, {0, 2}}, Thorough: []Bound{{1, 2}, {0, 3}}, Body: c17MapOrder, MaxSteps: 100000})
 }
+
+// several callers wait out a Fallback pause together and are released in one go: with n live
+// targets and round robin, n callers released together go to n distinct targets (each released
+// caller takes its own turn of the rotation).
+func c17ReleasedTogether(x *X) {
+	n := 2 + x.Choose(2)
+	addrs := []string{"a", "b", "c"}[:n]
+	s := newCliSys(x, rpc.RoundRobinScheduling, addrs...)
+	for _, a := range addrs {
+		s.rt.up[a] = true
+	}
+	s.tick(2)
+	k := x.Choose(n) // calls made before: the rotation stands anywhere
+	for i := 0; i < k; i++ {
+		clientCall(s.c, cfCall)
+	}
+	s.c.Fallback(150 * time.Millisecond)
+	from := len(s.rt.routed)
+	forms := make([]int, n)
+	for i := range forms {
+		forms[i] = []int{cfCall, cfGo, cfCallCtx}[(i+k)%3]
+	}
+	ws := spawnWaiters(s, forms)
+	vs.Quiesce()
+	s.tick(4)
+	var seq []string
+	for _, r := range s.rt.userRoutes(from) {
+		seq = append(seq, r.addr)
+	}
+	for _, w := range ws {
+		if !w.done || w.err != nil {
+			x.Fail("C17/released-caller-failed", "a %s caller that waited out a 150 ms Fallback: returned=%v err=%v", cfNames[w.form], w.done, w.err)
+		}
+	}
+	if len(seq) == n && len(dedup(seq)) != n {
+		x.Fail("C17/roundrobin-repeats/released-together", "%d callers waited out a Fallback pause and were released together; with %d live targets and round robin they were sent to %v", n, n, seq)
+	}
+	x.Outcome("n=%d k=%d seq=%v", n, k, seq)
+	s.close()
+}
+
+// a client that uses one call form only (streams only, Go only, ...): one of three live targets
+// starts refusing connections; after the call that hits it and two detector periods no call is sent
+// to it any more, and round robin alternates between the two live ones.  Registered under C17 and C18.
+func oneFormWorkload(prop string) func(x *X) {
+	return func(x *X) {
+		form := x.Choose(nCForms)
+		sched := []rpc.Scheduling{rpc.RoundRobinScheduling, rpc.LeastTimeScheduling, rpc.RandomScheduling}[x.Choose(3)]
+		dying := []string{"a", "b", "c"}[x.Choose(3)]
+		s := newCliSys(x, sched, "a", "b", "c")
+		s.c.Tick = 50 * time.Millisecond
+		for i, a := range []string{"a", "b", "c"} {
+			s.rt.up[a] = true
+			s.rt.lat[a] = time.Duration(3-i) * time.Millisecond
+		}
+		s.tick(2)
+		one := func() {
+			done := false
+			vs.GoNamed("caller", func() { clientCall(s.c, form); done = true })
+			vs.Quiesce()
+			for k := 0; k < 7 && !done; k++ {
+				s.tick(1)
+			}
+		}
+		for i := 0; i < 3; i++ {
+			one()
+		}
+		s.rt.up[dying] = false
+		ncalls := 4
+		if sched == rpc.RandomScheduling {
+			ncalls = 2
+		}
+		det := len(s.rt.routed)
+		for i := 0; i < ncalls; i++ { // one of them hits the dying target (LeastTime: when it is probed)
+			one()
+			s.tick(1)
+		}
+		noticed := false // a target is only found dead by a call that fails on it
+		for _, r := range s.rt.userRoutes(det) {
+			if r.addr == dying {
+				noticed = true
+			}
+		}
+		s.tick(2)
+		from := len(s.rt.routed)
+		for i := 0; i < ncalls; i++ {
+			one()
+			s.tick(1)
+		}
+		var seq []string
+		hits := 0
+		for _, r := range s.rt.userRoutes(from) {
+			seq = append(seq, r.addr)
+			if r.addr == dying {
+				hits++
+			}
+		}
+		if noticed && (hits > 1 || hits == 1 && sched != rpc.LeastTimeScheduling) {
+			// (LeastTime may still have had its first probe of the dead target ahead of it)
+			if prop == "C18" {
+				x.Fail("C18/no-failover/one-form", "target %s has refused connections for %d calls and %d detector periods and a client that only uses %s (scheduling %d) still sends calls to it: %v", dying, ncalls, ncalls+2, cfNames[form], sched, seq)
+			} else {
+				x.Fail("C17/not-a-live-target/one-form", "a client that only uses %s (scheduling %d) routed to %q, which has refused connections for %d calls and %d detector periods: %v", cfNames[form], sched, dying, ncalls, ncalls+2, seq)
+			}
+		}
+		x.Outcome("form=%s sched=%d dying=%s noticed=%v seq=%v", cfNames[form], sched, dying, noticed, seq)
+		s.close()
+	}
+}
+
+func init() {
+	register(&Scenario{Prop: "C17", Name: "c17/released-together", Quick: []Bound{{0, 0}, {1, 0}}, Thorough: []Bound{{2, 0}}, Body: c17ReleasedTogether, MaxSteps: 100000, BudgetQ: 15})
+	register(&Scenario{Prop: "C17", Name: "c17/one-form-workload", Quick: []Bound{{0, 0}}, Thorough: []Bound{{1, 0}}, Body: oneFormWorkload("C17"), MaxSteps: 200000, BudgetQ: 20, BudgetT: 200})
+	register(&Scenario{Prop: "C18", Name: "c18/one-form-workload", Quick: []Bound{{0, 0}}, Thorough: []Bound{{1, 0}}, Body: oneFormWorkload("C18"), MaxSteps: 200000, BudgetQ: 20, BudgetT: 200})
+}
